@@ -237,7 +237,7 @@ def main():
         },
         "engines": [{
             "name": "lean-proof+correspondence", "path": "check", "serves_properties": [c["property_id"] for c in checks],
-            "kind_free_text": "Lean 4 theorems about a hand-written model (lean/PycfModel), tables regenerated from the live classes on every run (harness/extract.py), differential correspondence between the compiled model driver and the implementation (harness/props/*.py)",
+            "kind_free_text": "Lean 4 theorems about a hand-written model (lean/PycfModel), tables regenerated from the live classes and the source text on every run (harness/extract.py, harness/effects.py), differential correspondence between the compiled model driver and the implementation (harness/props/*.py)",
         }],
         "checks": checks,
         "notes": "Repairs of genuine defects are unguarded 'fix:' commits in /repo, listed in known_findings.json.",
